@@ -51,6 +51,8 @@ TreeCases ==
    Tree(<<Card, F("home", "@component(\"~card\", {n: zz, m: yy, k: 1 / 0})")>>, "home", "failing-arguments"),
    Tree(<<Card, F("home", "@component(\"~card\", " \o Obj(6, BadV) \o ")")>>, "home", "failing-arguments"),
    Tree(<<F("components/o", "{{ a }}{{ b }}{{ c }}{{ d }}"), F("home", "@component(\"~o\", " \o Obj(4, Num) \o ")|@component(\"~o\", {d: 9, c: 8, b: 7, a: 6})")>>, "home", "component-arguments"),
+   Tree(<<Card, F("home", "{{ x = 1 }}{{ y = 2 }}{{ n = true }}@component(\"~card\", {x: \"s\", y: \"t\", n: 3, loop: 4})")>>, "home", "unbindable-arguments"),
+   Tree(<<Card, F("home", "@each(q in [1, 2]){{ x = 1 }}{{ y = 2.5 }}@component(\"~card\", {x: \"s\", y: \"t\", n: loop, q: \"z\", loop: q})@end")>>, "home", "unbindable-arguments"),
    Tree(<<F("a", "A"), F("b", "B"), F("c/d", "D"), F("c/e", "E"), F("f", "@dump(" \o Obj(5, Num) \o ")")>>, "f", "many-files")}
 
 Cases == RenderCases \cup TreeCases
